@@ -49,7 +49,18 @@ def run(chk):
     for xs in inputs:
         k = rng.choice([1, 1, 2])
         engine = rng.choice(["symdel", "hash_based", "kdtree"]) if max(len(x) for x in xs) <= 6 or k == 1 else "symdel"
-        nb = core.call_real(lambda: getattr(nn, engine)(xs, max_edits=k))
+        variant = rng.choice(["plain", "plain", "max_returns", "two-collection-self"])
+        if variant == "max_returns":
+            # capped search: the list need not contain both orientations of a pair - an edge is an edge in either direction
+            engine = "kdtree[max_returns]"
+            mr = rng.choice([1, 2])
+            nb = core.call_real(lambda: nn.kdtree(xs, max_edits=k, max_returns=mr))
+        elif variant == "two-collection-self":
+            # a collection looked up in itself: every position is its own neighbour at distance 0 (self loops join nothing)
+            engine = "nearest_neighbor[seqs2=seqs]"
+            nb = core.call_real(lambda: nn.nearest_neighbor(xs, max_edits=k, seqs2=list(xs)))
+        else:
+            nb = core.call_real(lambda: getattr(nn, engine)(xs, max_edits=k))
         if nb[0] != "ok":
             continue
         trip = [tuple(int(v) for v in t) for t in nb[1]]
